@@ -54,6 +54,8 @@ pub fn base_project(n: usize, rich: bool) -> ItemProject {
             items.push(format!("#[tauri::command]\npub async fn stream_{i}(on_item: Channel<K{i}>) -> bool {{ let _ = on_item; true }}\n", i = i));
         }
         items.push(format!("pub fn notify_{i}(app: &AppHandle, payload: T{i}) {{ app.emit(\"changed-{i}\", payload).unwrap(); }}\n", i = i));
+        // an emit whose payload is an untyped local: must stay `unknown` whatever else is in the file
+        items.push(format!("pub fn raw_{i}(app: &AppHandle) {{ let snapshot = build_snapshot(); app.emit(\"raw-{i}\", snapshot).unwrap(); }}\n", i = i));
         files.push((path, items));
     }
     ItemProject { files }
@@ -98,7 +100,8 @@ impl Transform {
             }
             Transform::HelperFns => {
                 for (i, (_, items)) in q.files.iter_mut().enumerate() {
-                    items.insert(0, format!("pub fn helper_{}(x: i32) -> i32 {{ x + 1 }}\nfn private_helper_{}() {{}}\n", i, i));
+                    // helpers reuse variable names of other functions with unrelated types
+                    items.insert(0, format!("pub fn helper_{}(x: i32, snapshot: &K{}, payload: String, arg: Vec<u8>, count: K{}) -> i32 {{ let on_item: i32 = 1; x + on_item }}\nfn private_helper_{}() {{}}\n", i, i, i, i));
                     items.push(format!("pub async fn tail_helper_{}() {{}}\n", i));
                 }
             }
